@@ -95,6 +95,8 @@ pub struct EvalOut {
     pub n_actions: u32,
     pub n_calls: u32,
     pub decisions_digest: u64,
+    /// coverage: hashed joint states along edges and two-edge paths, observed after every call
+    pub features: BTreeSet<u64>,
     pub max_in_flight: usize,
     pub clock_start: u64,
     pub clock_end: u64,
@@ -391,6 +393,7 @@ pub fn evaluate(sc_cfg: &Config, defs: &[Def], world: &mut World, plan: &EvalPla
         clock_end: world.clock,
         blocked: BTreeSet::new(),
         misuse_done: 0,
+        features: BTreeSet::new(),
         consumed_at_start: BTreeMap::new(),
     };
 
@@ -1350,6 +1353,28 @@ impl<'a> DriverState<'a> {
         let running_sim: BTreeSet<usize> = self.running.iter().map(|r| r.job).collect();
         let snap = eng.snapshot();
         let state_of: BTreeMap<&str, vs::VState> = snap.jobs.iter().map(|x| (x.job_id.as_str(), x.state)).collect();
+
+        // ---- coverage measure: joint engine states along every edge and every two-edge path
+        {
+            let code = |id: &str| -> u64 {
+                state_of.get(id).map(|s| ((s.kind as u64) << 16) | ((s.code as u64) << 8) | s.vs as u64).unwrap_or(0xff_ffff)
+            };
+            let mut by_up: BTreeMap<&str, Vec<usize>> = BTreeMap::new();
+            for (i, e) in snap.edges.iter().enumerate() {
+                by_up.entry(e.upstream.as_str()).or_default().push(i);
+            }
+            for e1 in snap.edges.iter() {
+                let f1 = hash2(hash2(code(&e1.upstream), code(&e1.downstream)), ((e1.required as u64) << 8) | e1.invalidated as u64);
+                out.features.insert(hash2(1, f1));
+                if let Some(nexts) = by_up.get(e1.downstream.as_str()) {
+                    for i2 in nexts {
+                        let e2 = &snap.edges[*i2];
+                        let f2 = hash2(hash2(f1, code(&e2.downstream)), ((e2.required as u64) << 8) | e2.invalidated as u64);
+                        out.features.insert(hash2(2, f2));
+                    }
+                }
+            }
+        }
 
         // ---- C17 report consistency
         if running_q != running_sim {
